@@ -110,6 +110,15 @@ def grid(tier):
         yield {"base": "gen", "vers": "2.0", "junk": junk, "seed": 6000 + jk, "each_section": True, "via_path": True, "nonascii": True}
     for n in (60, 130):
         yield {"base": "gen", "vers": "2.0", "junk": ["ascii junk line %s" % ("y" * 40)], "seed": 6100 + n, "each_section": True, "flood": n, "via_path": True, "nonascii": True}
+    # the same for files stored in other encodings without a BOM (readable by path on their own): UTF-16 (every ASCII character
+    # carries a NUL byte) and an 8-bit code page
+    for codec in ("utf-16-be", "utf-16-le", "cp1252"):
+        for n in (1, 30, 60):
+            yield {"base": "gen", "vers": "2.0", "junk": ["x" * 79], "seed": 6200 + n, "each_section": True, "flood": n, "via_path": True, "nonascii": True, "file_codec": codec}
+        yield {"base": "gen", "vers": "2.0", "junk": ["y" * 2100], "seed": 6300, "each_section": True, "via_path": True, "nonascii": True, "file_codec": codec}
+        yield {"base": "gen", "vers": "2.0", "junk": ["plain junk"], "seed": 6301, "each_section": True, "via_path": True, "nonascii": False, "file_codec": codec}
+    for jk, junk in enumerate((["abc ~{AB~} ghi"], ["<meta charset=cp500>"], ['x <meta charset="utf-16le"> y'], ['<meta charset="shift_jis">'])):
+        yield {"base": "gen", "vers": "2.0", "junk": junk, "seed": 6400 + jk, "each_section": True, "via_path": True, "nonascii": True, "file_codec": "cp1252"}
     for n in (6, 19, 20, 21, 22, 33, 64, 65, 129, 300):
         for jk, junk in enumerate((["no separator here", "junk", "!!!", "(x)"], ["X.Y 1 : z"], ["a.b : c", "plain words", "Q : r", "..", "k .u 5 : d"])):
             if jk and n > 40:
@@ -184,6 +193,14 @@ def snapshot(las):
     return items, [canon.carray(c.data) for c in las.curves]
 
 
+def _ascii_skeleton(x):
+    if isinstance(x, str):
+        return "".join(ch if ord(ch) < 128 else "?" for ch in x)
+    if isinstance(x, tuple):
+        return tuple(_ascii_skeleton(v) for v in x)
+    return x
+
+
 def _as_ascii_reader_sees(x):
     if isinstance(x, str):
         return x.encode("utf-8").decode("ascii", "replace")
@@ -221,7 +238,7 @@ def run_case(case, ctx):
             # the junk-free base travels the same channel as the faulty file
             os.makedirs(ctx.scratch, exist_ok=True)
             bpath = os.path.join(ctx.scratch, "c19-base-%d.las" % (case["seed"] % 100000))
-            with open(bpath, "w", encoding="utf-8", newline="\n") as fh:
+            with open(bpath, "w", encoding=case.get("file_codec", "utf-8"), newline="\n") as fh:
                 fh.write(text)
             base = lasio.read(bpath, mnemonic_case=mc)
         else:
@@ -278,21 +295,29 @@ def run_case(case, ctx):
         ctx.count("reads_with_flag")
         _skipped[0] = 0
         source = jtext
+        eight_bit_by_path = bool(case.get("via_path")) and case.get("file_codec") in ("cp1252", "latin-1") and any(ord(ch) > 127 for ch in jtext)
+        first_na = None
         if case.get("via_path"):
             # the same text as a UTF-8 file read by name: the default channel, with lasio's own encoding detection in the way
             os.makedirs(ctx.scratch, exist_ok=True)
             source = os.path.join(ctx.scratch, "c19-%d.las" % (case["seed"] % 100000))
-            with open(source, "w", encoding="utf-8", newline="\n") as fh:
+            with open(source, "w", encoding=case.get("file_codec", "utf-8"), newline="\n") as fh:
                 fh.write(jtext)
             ctx.count("reads_of_files_by_path")
+            if case.get("file_codec"):
+                ctx.count("reads_of_files_by_path_stored_as_" + case["file_codec"])
             first_na = next((k for k, b in enumerate(jtext.encode("utf-8")) if b > 127), None)
             if first_na is not None and first_na >= 4000:
                 ctx.count("path_reads_with_first_nonascii_byte_beyond_4000")
         try:
             las = lasio.read(source, ignore_header_errors=True, mnemonic_case=mc)
         except Exception as e:
-            ctx.violation("flag-set-read-raised:%s:%s" % (type(e).__name__, "+".join(sorted({k for _, k, *_ in plan}))),
-                          "read(ignore_header_errors=True) raised %r" % (e,), detail)
+            mech = "flag-set-read-raised:%s:%s" % (type(e).__name__, "+".join(sorted({k for _, k, *_ in plan})))
+            if eight_bit_by_path and isinstance(e, KeyError) and "No ~ sections" in str(e):
+                # an 8-bit file has to be guessed by the detector, and a junk line that looks like an escape sequence or a charset
+                # declaration decides the guess (known finding)
+                mech = "path-read-8bit-file-junk-misleads-the-encoding-detector:no-sections"
+            ctx.violation(mech, "read(ignore_header_errors=True) raised %r" % (e,), detail)
             las = None
         if _skipped[0]:
             ctx.count("flag_reads_that_skipped_a_line")
@@ -308,6 +333,10 @@ def run_case(case, ctx):
                 if obs is None or isinstance(obs, str) or not subsequence(gen, obs):
                     missing = [g for g in gen if obs is None or isinstance(obs, str) or g not in obs]
                     mech = "genuine-item-changed-or-dropped" if missing else "genuine-items-reordered"
+                    if eight_bit_by_path and isinstance(obs, list) and subsequence([_ascii_skeleton(g) for g in gen], [_ascii_skeleton(o) for o in obs]):
+                        # every genuine item is there, in order, and differs only in its non-ASCII characters: the detector guessed
+                        # another 8-bit code page for the file with the junk than for the file without
+                        mech = "path-read-8bit-file-junk-misleads-the-encoding-detector:other-code-page"
                     if (case.get("via_path") and first_na is not None and first_na >= 4000 and isinstance(obs, list)
                             and subsequence([_as_ascii_reader_sees(g) for g in gen], obs)):
                         # every genuine item is there, in order, and differs only by U+FFFD where the file has non-ASCII
